@@ -53,6 +53,12 @@ GensQ == { Q1(X), T1(X), R2(X, Y), S2(X, Y), Fail, True,
            Conj(S2(X, Y), Lt(Y, I(3))),
            ThrowAt2, DivAt3,
            Conj(Q1(X), C3("findall", Y, R2(X, Y), Z)),        \* nested findall in the generator
+           (* a nested findall abandoned by a ball after it collected solutions; the ball is caught INSIDE the generator, *)
+           (* so the enclosing collection goes on and must not see what the abandoned one had gathered                    *)
+           Conj(T1(X), C3("catch", C3("findall", Y, Conj(T1(Y), Ite(C2(">=", Y, I(3)), C1("throw", C1("oops", Y)), True)), Z),
+                                   C1("oops", V("B0")), Eq(Z, A("caught")))),
+           C3("catch", C3("findall", Y, Conj(T1(Y), Ite(C2(">=", Y, I(2)), C1("throw", C1("oops", Y)), True)), Z),
+                       C1("oops", V("B0")), Eq(X, V("B0"))),
            Disj(Eq(X, a), Eq(Y, b)),              \* solutions that leave variables unbound
            S3(X, Y, Z),
            G0, I(1) }                             \* unbound and non-callable goal
